@@ -672,6 +672,10 @@ pub struct EnvOpts {
     /// at quiescence, poll the connection this many extra times without any event (spurious
     /// wake-ups are legal; memory bounds must not depend on being polled only when necessary)
     pub spurious_polls: u32,
+    /// virtual time that passes between the construction of the service (when its date service
+    /// caches the clock) and the arrival of the connection; below the 500 ms date tick the
+    /// cached clock lags the real one by this much when the connection's timers are armed
+    pub accept_delay_ms: u64,
 }
 
 impl Default for EnvOpts {
@@ -689,6 +693,7 @@ impl Default for EnvOpts {
             light_log: false,
             hold_gates: false,
             spurious_polls: 0,
+            accept_delay_ms: 0,
         }
     }
 }
